@@ -51,6 +51,9 @@ let flag_row (p : Packet.packet) : string =
   | _ -> ""
 
 let run path =
+  (* the extracted list functions are not tail recursive: with 2 MiB packets the stack is deep and
+     every minor collection scans it, so keep minor collections rare (256 MiB minor heap) *)
+  Gc.set { (Gc.get ()) with Gc.minor_heap_size = 32 * 1024 * 1024 };
   let cases = Hashtbl.create 1024 in
   let n = ref 0 and bad = ref 0 in
   let seen = Hashtbl.create 4096 in
